@@ -446,9 +446,10 @@ const (
 	hsLost
 	hsShort  // valid wrapper, payload cut below its minimum: final error
 	hsStatus // non-OK status: final error
+	hsOther  // a well-formed RMCP message that is not an RMCP+ session packet (ASF pong, RMCP ACK): not a reply, re-send
 )
 
-var hsNames = map[hsOutcome]string{hsOK: "ok", hsGarbage: "garbage", hsLost: "lost", hsShort: "short-payload", hsStatus: "status-error"}
+var hsNames = map[hsOutcome]string{hsOK: "ok", hsGarbage: "garbage", hsLost: "lost", hsShort: "short-payload", hsStatus: "status-error", hsOther: "asf-or-ack"}
 
 func hsString(s []hsOutcome) string {
 	out := "["
@@ -481,6 +482,12 @@ func runHandshake(suite ref.Suite, step uint8, script []hsOutcome, seed uint64) 
 			rx.Replies = []memnet.Out{{Data: append([]byte{6, 0, 0xff, 7, 6, 0}, b.Rand.Bytes(7)...)}}
 		case hsLost:
 			rx.Replies = nil
+		case hsOther:
+			if pos%2 == 0 {
+				rx.Replies = []memnet.Out{{Data: []byte{0x06, 0x00, 0xff, 0x06, 0x00, 0x00, 0x11, 0xbe, 0x40, 0x00, 0x00, 0x10, 0x00, 0x00, 0x11, 0xbe, 0x00, 0x00, 0x00, 0x00, 0x81, 0x00, 0x00, 0x00, 0x00, 0x00, 0x00, 0x00}}}
+			} else {
+				rx.Replies = []memnet.Out{{Data: []byte{0x06, 0x00, 0x2a, 0x87}}}
+			}
 		case hsShort:
 			if len(rx.Replies) > 0 {
 				d := append([]byte(nil), rx.Replies[0].Data[:16+4]...)
@@ -570,7 +577,7 @@ func TestEnumeratedHandshake(t *testing.T) {
 		if len(pre) == depth {
 			return
 		}
-		for _, nt := range []hsOutcome{hsGarbage, hsLost} {
+		for _, nt := range []hsOutcome{hsGarbage, hsLost, hsOther} {
 			rec(append(append([]hsOutcome(nil), pre...), nt))
 		}
 	}
